@@ -86,8 +86,36 @@ package plugins
 //@   ensures body_kept: lrw.ResponseWriter.bodyLen == old(lrw.ResponseWriter.bodyLen)
 //@   modifies lrw.wroteHeader, lrw.statusCode, http.ResponseWriter.committed, http.ResponseWriter.status, http.ResponseWriter.ceAtCommit, http.ResponseWriter.clAtCommit
 
+// C14 "the client gets 413 if the excess is detected before anything was sent": the 413 must actually reach the client.
+// net/http sends a status on the first body write, on Flush, or when the handler returns - and the handler behind the
+// plugin in production, httputil.ReverseProxy, aborts by panic when its write is refused, after which the server drops
+// a response that is still pending. So the refusal is (a) flushed at once, (b) a complete message (Content-Length 0, no
+// entity headers of the refused body), (c) leaves every other header - the request/trace IDs (C16) - alone.
+//@ pred hdr(l *limitedResponseWriter, k string) string := gfield(hdrmap(ptr(l.ResponseWriter)), http.Header.vals)[k]
+//@ pred refusalSent(l *limitedResponseWriter, flushesBefore int) := l.wroteHeader && l.statusCode == 413
+//@      && (implements(l.ResponseWriter, http.Flusher) ==> l.ResponseWriter.flushes == flushesBefore + 1)
+//@ func (*limitedResponseWriter).refuse
+//@   props C14 C16
+//@   requires lrw.ResponseWriter != nil && !lrw.wroteHeader && (!lrw.ResponseWriter.committed || lrw.ResponseWriter.hijacked)
+//@   ensures the_refusal_is_sent_at_once: refusalSent(lrw, old(lrw.ResponseWriter.flushes))
+//@   ensures it_is_a_413: !old(lrw.ResponseWriter.committed) ==> lrw.ResponseWriter.committed && lrw.ResponseWriter.status == 413
+//@   ensures a_complete_empty_message: !old(lrw.ResponseWriter.committed) ==> lrw.ResponseWriter.clAtCommit == "0" && lrw.ResponseWriter.ceAtCommit == ""
+//@   ensures other_headers_kept: forall k string :: {hdr(lrw, k)} k != "Content-Encoding" && k != "Content-Type" && k != "Content-Length" ==> hdr(lrw, k) == old(hdr(lrw, k))
+//@   ensures body_kept: lrw.ResponseWriter.bodyLen == old(lrw.ResponseWriter.bodyLen) && lrw.written == old(lrw.written)
+//@   modifies lrw.wroteHeader, lrw.statusCode, http.Header.vals, http.ResponseWriter.committed, http.ResponseWriter.status, http.ResponseWriter.ceAtCommit, http.ResponseWriter.clAtCommit, http.ResponseWriter.flushes
+// A response that ANNOUNCES more than the limit is refused when its status arrives: a proxy flushes the header ahead of
+// the body, so waiting for the first oversized write would be too late for a 413. HEAD, 204 and 304 announce a
+// length without sending a body.
+//@ pred announcesTooMuch(l *limitedResponseWriter, code int) := !l.headOnly && code != 204 && code != 304
+//@      && parse_int_ok(hdr(l, "Content-Length")) && parse_int(hdr(l, "Content-Length")) > l.limit
+//@ func (*limitedResponseWriter).declaresTooMuch
+//@   props C14
+//@   requires lrw.ResponseWriter != nil
+//@   ensures result == announcesTooMuch(lrw, statusCode)
 //@ func (*limitedResponseWriter).checkLimit
 //@   props C14 C16
+//@   ensures the_refusal_reaches_the_client: old(lrw.written) + len(b) > lrw.limit && !old(lrw.wroteHeader) ==> refusalSent(lrw, old(lrw.ResponseWriter.flushes))
+//@   ensures other_headers_kept: forall k string :: {hdr(lrw, k)} k != "Content-Encoding" && k != "Content-Type" && k != "Content-Length" ==> hdr(lrw, k) == old(hdr(lrw, k))
 //@   requires inv(lrw)
 //@   ensures inv: inv(lrw)
 //@   ensures within: old(lrw.written) + len(b) <= lrw.limit ==> result == nil && lrw.limitReached == old(lrw.limitReached) && lrw.wroteHeader == old(lrw.wroteHeader)
@@ -96,7 +124,7 @@ package plugins
 //@   ensures excess: old(lrw.written) + len(b) > lrw.limit ==> result != nil && lrw.limitReached
 //@   ensures excess_before_anything_sent_is_413: old(lrw.written) + len(b) > lrw.limit && !old(lrw.wroteHeader) && !lrw.ResponseWriter.hijacked ==> lrw.ResponseWriter.status == 413
 //@   ensures nothing_written: lrw.written == old(lrw.written) && lrw.ResponseWriter.bodyLen == old(lrw.ResponseWriter.bodyLen)
-//@   modifies lrw.limitReached, lrw.wroteHeader, lrw.statusCode, http.ResponseWriter.committed, http.ResponseWriter.status, http.ResponseWriter.ceAtCommit, http.ResponseWriter.clAtCommit
+//@   modifies lrw.limitReached, lrw.wroteHeader, lrw.statusCode, http.Header.vals, http.ResponseWriter.committed, http.ResponseWriter.status, http.ResponseWriter.ceAtCommit, http.ResponseWriter.clAtCommit, http.ResponseWriter.flushes
 
 //@ func (*limitedResponseWriter).Write
 //@   props C14
@@ -104,7 +132,7 @@ package plugins
 //@   ensures inv: inv(lrw)
 //@   ensures never_beyond_limit: lrw.ResponseWriter.bodyLen - lrw.base <= lrw.limit
 //@   ensures refused_when_excess: old(lrw.limitReached) || old(lrw.written) + len(b) > lrw.limit ==> result0 == 0 && result1 != nil && lrw.ResponseWriter.bodyLen == old(lrw.ResponseWriter.bodyLen)
-//@   modifies lrw.written, lrw.limitReached, lrw.wroteHeader, lrw.statusCode, http.ResponseWriter.committed, http.ResponseWriter.status, http.ResponseWriter.ceAtCommit, http.ResponseWriter.clAtCommit, http.ResponseWriter.bodyLen
+//@   modifies lrw.written, lrw.limitReached, lrw.wroteHeader, lrw.statusCode, http.Header.vals, http.ResponseWriter.committed, http.ResponseWriter.status, http.ResponseWriter.ceAtCommit, http.ResponseWriter.clAtCommit, http.ResponseWriter.bodyLen, http.ResponseWriter.flushes
 
 // status fidelity as net/http defines it: an informational status is forwarded at once and decides nothing, the
 // first final status wins, calls after the commit are ignored
@@ -112,11 +140,15 @@ package plugins
 //@   props C14
 //@   requires inv(lrw)
 //@   ensures inv: inv(lrw)
-//@   ensures first_final_status_wins: !old(lrw.wroteHeader) && !informational(statusCode) ==> lrw.statusCode == (old(lrw.statusCode) != 0 ? old(lrw.statusCode) : statusCode)
+//@   ensures first_final_status_wins: !old(lrw.wroteHeader) && !informational(statusCode) && !(old(lrw.statusCode) == 0 && old(announcesTooMuch(lrw, statusCode)))
+//@             ==> lrw.statusCode == (old(lrw.statusCode) != 0 ? old(lrw.statusCode) : statusCode) && lrw.wroteHeader == old(lrw.wroteHeader) && lrw.limitReached == old(lrw.limitReached)
+//@   ensures an_announced_excess_is_refused_before_anything_is_sent: !old(lrw.wroteHeader) && !informational(statusCode) && old(lrw.statusCode) == 0 && old(announcesTooMuch(lrw, statusCode))
+//@             ==> lrw.limitReached && refusalSent(lrw, old(lrw.ResponseWriter.flushes)) && (!lrw.ResponseWriter.hijacked ==> lrw.ResponseWriter.status == 413)
+//@   ensures other_headers_kept: forall k string :: {hdr(lrw, k)} k != "Content-Encoding" && k != "Content-Type" && k != "Content-Length" ==> hdr(lrw, k) == old(hdr(lrw, k))
 //@   ensures informational_decides_nothing: informational(statusCode) ==> lrw.statusCode == old(lrw.statusCode) && lrw.wroteHeader == old(lrw.wroteHeader)
 //@             && lrw.ResponseWriter.committed == old(lrw.ResponseWriter.committed)
 //@   ensures ignored_after_commit: old(lrw.wroteHeader) ==> lrw.statusCode == old(lrw.statusCode)
-//@   modifies lrw.statusCode, http.ResponseWriter.committed, http.ResponseWriter.status, http.ResponseWriter.ceAtCommit, http.ResponseWriter.clAtCommit
+//@   modifies lrw.statusCode, lrw.limitReached, lrw.wroteHeader, http.Header.vals, http.ResponseWriter.committed, http.ResponseWriter.status, http.ResponseWriter.ceAtCommit, http.ResponseWriter.clAtCommit, http.ResponseWriter.flushes
 
 //@ func (*limitedResponseWriter).Flush
 //@   props C14
